@@ -20,6 +20,9 @@ inductive Scheme where
   | none | pkcs1v15 | oaepSha1 | oaepSha256
   deriving Repr, DecidableEq
 
+/-- `rsa.PublicKey.Size()`: modulus length in bytes -/
+def sizeOfBits (bits : Int) : Int := (bits + 7) / 8
+
 inductive SigScheme where
   | none | pkcs1v15Sha1 | pkcs1v15Sha256 | pssSha256
   deriving Repr, DecidableEq
@@ -37,11 +40,9 @@ structure AsymRow where
   maxKeyBytes : Int
   nonceLength : Int
   /-- translation of the constructor's guards: the constructor returns an
-      algorithm (not an error) for keys of these sizes in bytes -/
-  accept : (hasLocal : Bool) → (localSize : Int) → (hasRemote : Bool) → (remoteSize : Int) → Bool
-
-/-- `rsa.PublicKey.Size()`: modulus length in bytes -/
-def sizeOfBits (bits : Int) : Int := (bits + 7) / 8
+      algorithm (not an error) for keys whose moduli have these bit lengths
+      (`N.BitLen()`; `Size()` is `sizeOfBits` of it) -/
+  accept : (hasLocal : Bool) → (localBits : Int) → (hasRemote : Bool) → (remoteBits : Int) → Bool
 
 /-! ### Specification numbers (hand-written) -/
 namespace Spec
